@@ -222,6 +222,11 @@ def dynamic_flush_guards(fn, facts):
         if not (isinstance(c, dict) and c.get("k") == "Bin" and c.get("op") == "<" and path(c["lhs"]) == ("this", "m_avail")):
             continue
         r = unwrap_all_casts(c["rhs"])
+        if isinstance(r, dict) and r.get("k") == "Ref" and r.get("d") == "local":
+            # `reserve(H(x))` expanded: the threshold sits in a local with one definition
+            d_ = Env(fn["body"]).defs.get(path(r)[0]) if path(r) else None
+            if d_ is not None:
+                r = unwrap_all_casts(d_)
         if isinstance(r, dict) and r.get("k") in ("Call", "MCall") and (r.get("callee") or {}).get("inrepo") and len(r.get("args", [])) == 1:
             cal = r["callee"]
             cands = [g for g in facts.fns(cal["qn"]) if g["sig"] == cal["sig"] and g.get("targs", "") == cal.get("targs", "")]
@@ -231,12 +236,25 @@ def dynamic_flush_guards(fn, facts):
 
 
 def head_fn_value(hfn, v, facts):
+    """H(v) for a head-size function: straight-line evaluation for one concrete argument (comparisons, arithmetic, bit counts,
+    look-ups in constant arrays of the translation unit)"""
     from .. import minieval
-    rets = [x for x in ir.walk(hfn["body"]) if x.get("k") == "Return" and x.get("e") is not None]
-    if len(rets) != 1:
-        return None
+    arrays = {}
+    for x in ir.walk(hfn["body"]):
+        if x.get("k") == "Ref" and x.get("d") == "global" and "[" in (x.get("t") or ""):
+            for gv in facts.vars:
+                if gv.get("qn") == (x.get("qn") or x.get("n")) and gv.get("const"):
+                    il = unwrap_all_casts(gv.get("init")) if gv.get("init") is not None else None
+                    if isinstance(il, dict) and il.get("k") == "InitList":
+                        vals = [const_value(c_) for c_ in il.get("c", [])]
+                        if all(isinstance(c_, int) for c_ in vals):
+                            arrays[gv["qn"]] = vals
+    env = {"p:%s" % hfn["params"][0]["n"]: v, "@arrays": arrays}
     try:
-        return minieval.ev(unwrap(rets[0]["e"]), {"p:%s" % hfn["params"][0]["n"]: v}, facts.enums)
+        r = minieval.run_straightline(ir.stmts(hfn["body"]), env, facts.enums)
+        if r[0] != "return" or r[1].get("e") is None:
+            return None
+        return minieval.ev(unwrap(r[1]["e"]), env, facts.enums)
     except minieval.Unknown:
         return None
 
@@ -245,6 +263,9 @@ def head_fn_points(hfn, lo, hi):
     pts = set([lo, hi])
     for b in (0, 23, 24, 255, 256, 65535, 65536, (1 << 32) - 1, 1 << 32, -1, -24, -25, -256, -257, -65536, -65537, -(1 << 32), -(1 << 32) - 1):
         pts.add(b)
+    # a function built from bit counts and shifts can change at every power of two
+    for b in range(1, 65):
+        pts.update(((1 << b) - 1, 1 << b, -(1 << b), -(1 << b) - 1))
     for x in ir.walk(hfn["body"]):
         cv = const_value(x)
         if isinstance(cv, int) and not isinstance(cv, bool):
@@ -376,6 +397,28 @@ def check_public_writes(run, rename=None):
                     # value-dependent threshold `m_avail < H(x)`: tabulate H over the finite set of points where H or the
                     # RFC head size can change, for the value range of this branch
                     dd = [d for d in dyn if d[0] < dorder[id(c)]]
+                    # ... of the guards in front of the call, the ones on a path that can reach it (a threshold computed under
+                    # `value < 0` does not protect the write under `value >= 0`)
+                    def guard_of(ifn_order):
+                        for st2, g2, lp2 in leafs:
+                            if st2.get("k") == "IfCond" and dorder.get(id(st2.get("node"))) == ifn_order:
+                                return g2
+                        for st2, g2, lp2 in leafs:
+                            if dorder.get(id(st2)) is not None and dorder[id(st2)] > ifn_order and st2.get("k") not in ("IfCond", "LoopHead", "SwitchHead"):
+                                return None
+                        return None
+                    dd2 = []
+                    pk0 = "p:%s" % f["params"][0]["n"] if f.get("params") else None
+                    for d in dd:
+                        gd = guard_of(d[0])
+                        compatible = gd is None or ir.f_and(gd, g) != ("F",)
+                        if compatible and gd is not None and pk0:
+                            # (the two guards as conditions on the argument's sign)
+                            compatible = any(ir.eval_formula(gd, {pk0: v_}) is not False and ir.eval_formula(g, {pk0: v_}) is not False
+                                             for v_ in (-(1 << 40), -256, -1, 0, 1, 255, 1 << 40))
+                        if compatible:
+                            dd2.append(d)
+                    dd = dd2 or dd
                     verdict = None
                     msg = ""
                     if dd:
@@ -388,11 +431,31 @@ def check_public_writes(run, rename=None):
                         if ht in TYPE_BITS and (same or compl):
                             bits = TYPE_BITS[ht]
                             lo, hi = ((-(1 << (bits - 1)), (1 << (bits - 1)) - 1) if ht in SIGNED else (0, (1 << bits) - 1))
+                            # the argument handed to H comes from a narrower type: H is only ever asked about that type's values
+                            src_ = unwrap_all_casts(harg)
+                            st_ = (src_.get("t") or "").replace("const ", "") if isinstance(src_, dict) else ""
+                            if st_ in TYPE_BITS and src_.get("k") in ("Ref", "Member"):
+                                sb_ = TYPE_BITS[st_]
+                                slo_, shi_ = ((-(1 << (sb_ - 1)), (1 << (sb_ - 1)) - 1) if st_ in SIGNED else (0, (1 << sb_) - 1))
+                                full_ = (lo, hi)
+                                lo, hi = slo_, shi_
+                            else:
+                                full_ = None
                             pk = "p:%s" % f["params"][0]["n"] if f.get("params") else None
-                            if any(cj == ("cmp", "<", pk, "0") for cj in conjuncts(g)):
+                            h_is_param = path(h0) == (pk,) if isinstance(h0, dict) and pk else False
+                            if h_is_param and any(cj == ("cmp", "<", pk, "0") for cj in conjuncts(g)):
                                 hi = -1
-                            elif any(cj in (("cmp", "<=", "0", pk),) for cj in conjuncts(g)):
+                            elif h_is_param and any(cj in (("cmp", "<=", "0", pk),) for cj in conjuncts(g)):
                                 lo = max(lo, 0)
+                            if not h_is_param:
+                                lo = max(lo, 0) if same else lo
+                            if same and mx is not None:
+                                hi = min(hi, mx)        # H is asked about the very value write_int is given
+                            if full_ is not None:
+                                if lo < full_[0]:
+                                    lo, hi = full_      # a negative value converted to the unsigned parameter: the whole range
+                                else:
+                                    hi = min(hi, full_[1])
                             badpts = []
                             for v in head_fn_points(hfn, lo, hi):
                                 hv = head_fn_value(hfn, v, facts)
